@@ -712,7 +712,7 @@ impl Tokenizer {
                 let first_len = first_tokens.len().min(max_tokens_per_chunk);
                 let second_len = second_tokens.len().min(max_tokens_per_chunk - first_len);
 
-                if second_len == 0 {
+                if second_len == 0 && (!second_tokens.is_empty() || first_tokens.is_empty()) {
                     // We can't "consume" tokens from the second sequence in
                     // each chunk, so just return an empty output.
                     return Ok(vec![]);
@@ -726,10 +726,19 @@ impl Tokenizer {
                     overlap
                 };
 
-                for (chunk_idx, (tokens_chunk, offsets_chunk)) in second_tokens
-                    .chunks_with_overlap(second_len, overlap)
-                    .zip(second_offsets.chunks_with_overlap(second_len, overlap))
-                    .enumerate()
+                // An empty second sequence still produces one chunk which
+                // holds the first sequence.
+                let second_chunks: Vec<(&[TokenId], &[usize])> = if second_tokens.is_empty() {
+                    vec![(&[], &[])]
+                } else {
+                    second_tokens
+                        .chunks_with_overlap(second_len, overlap)
+                        .zip(second_offsets.chunks_with_overlap(second_len, overlap))
+                        .collect()
+                };
+
+                for (chunk_idx, (tokens_chunk, offsets_chunk)) in
+                    second_chunks.into_iter().enumerate()
                 {
                     let mut tokens = Vec::new();
                     let mut offsets = Vec::new();
